@@ -138,7 +138,11 @@ def encode_float(v: typing.Any, w: int, cast: str) -> typing.Tuple[int, bool]:
 
 
 class Encoder:
-    def __init__(self) -> None:
+    def __init__(self, inflate: typing.Optional[typing.Iterator[typing.Tuple[int, int]]] = None) -> None:
+        # inflate: yields (extra bytes, fill byte) for every delimited object written - the payload of that object is followed
+        # by that many bytes the reader's revision of the type knows nothing about (a longer, newer revision wrote them), and the
+        # header counts them.  Shared with the nested encoders, consumed in writing order.
+        self.inflate = inflate
         self.bits: typing.List[int] = []
         self.nan_regions: typing.List[typing.Tuple[int, int]] = []
         self.field_starts: typing.List[typing.Tuple[typing.Tuple[typing.Any, ...], int]] = []  # (path, start bit)
@@ -220,9 +224,13 @@ class Encoder:
             self.align(8)
         elif k == "delim":
             self.align(8)
-            inner = Encoder()
+            inner = Encoder(self.inflate)
             inner.encode(spec[1], v, path)
             assert len(inner.bits) % 8 == 0
+            if self.inflate is not None:
+                extra, fill = next(self.inflate, (0, 0))
+                for _ in range(extra):
+                    inner.put(fill, 8)
             self.headers.append((len(self.bits), len(inner.bits) // 8))
             self.put(len(inner.bits) // 8, layout.DELIMITER_HEADER)
             base = len(self.bits)
@@ -284,9 +292,9 @@ def default_value(spec: typing.Any) -> typing.Any:
     raise ValueError(spec)
 
 
-def encode(spec: typing.Any, v: typing.Any, with_header: bool = False) -> Encoder:
+def encode(spec: typing.Any, v: typing.Any, with_header: bool = False, inflate: typing.Optional[typing.Iterator[typing.Tuple[int, int]]] = None) -> Encoder:
     """Top-level serialisation: a delimited type is written without its header unless asked for."""
-    enc = Encoder()
+    enc = Encoder(inflate)
     if spec[0] == "delim" and not with_header:
         enc.encode(spec[1], v)
     else:
